@@ -602,6 +602,65 @@ func collect(b *harness.B, fam string, idx int, blocks int, each func(c *chainge
 	net := chaingen.GenNet(rng, fam, b.Batch*100+idx)
 	c := chaingen.NewChain(net, rng)
 	var kept []sample
+	// update contents are stable: what an ApplyUpdate reports must not change because a client goes on using elements
+	// it obtained from it - the chain index element as returned by the accessor, and elements the client held before
+	// the block, brought up to date with UpdateElementProof (for a revised contract that call hands back the update's
+	// own leaf) - with later updates.
+	type retained struct {
+		au   consensus.ApplyUpdate
+		json []byte
+		h    uint64
+	}
+	var past []retained
+	var held []*types.StateElement
+	c.OnApply = func(ev chaingen.ApplyEvent) {
+		// 1. elements held from before this block that the block revises: updated in place, kept
+		for _, d := range ev.AU.V2FileContractElementDiffs() {
+			if d.Revision != nil && d.Resolution == nil && !d.Created {
+				if e, ok := c.S.V2FCEs[d.V2FileContractElement.ID]; ok {
+					se := e.StateElement.Copy()
+					held = append(held, &se)
+				}
+			}
+		}
+		for _, d := range ev.AU.FileContractElementDiffs() {
+			if d.Revision != nil && !d.Resolved && !d.Created {
+				if e, ok := c.S.FCEs[d.FileContractElement.ID]; ok {
+					se := e.StateElement.Copy()
+					held = append(held, &se)
+				}
+			}
+		}
+		for _, se := range held {
+			ev.AU.UpdateElementProof(se)
+		}
+		// 2. earlier updates still say what they said
+		for _, r := range past {
+			now, _ := json.Marshal(r.au)
+			b.Eval(1)
+			b.Count("retained_updates_recompared", 1)
+			if !bytes.Equal(now, r.json) {
+				b.Violate("C09/purity/earlier-ApplyUpdate-changed-by-later-proof-updates", fmt.Sprintf("the ApplyUpdate of the block at height %d reads differently after a client updated elements it holds with the update of height %d", r.h, ev.Next.Index.Height), map[string]any{"height_of_the_changed_update": r.h, "height": ev.Next.Index.Height, "kinds": ev.Kinds})
+				past = nil
+				held = nil
+				break
+			}
+		}
+		// 3. retain this update; the client keeps its chain index element as the accessor returned it
+		js, _ := json.Marshal(ev.AU)
+		past = append(past, retained{ev.AU, js, ev.Next.Index.Height})
+		if len(past) > 4 {
+			past = past[1:]
+		}
+		cie := ev.AU.ChainIndexElement()
+		held = append(held, &cie.StateElement)
+		if len(held) > 24 {
+			held = held[len(held)-24:]
+		}
+	}
+	c.OnStoreReverted = func(ev chaingen.RevertEvent) {
+		past, held = nil, nil // held proofs belong to the abandoned branch
+	}
 	c.OnAccepted = func(cs consensus.State, orig types.Block, bs consensus.V1BlockSupplement, kinds []string) {
 		if len(kinds) >= 3 {
 			b.Sample(chaingen.DescribeBlock(cs, orig, kinds))
